@@ -21,6 +21,11 @@ struct NearEq {
     bool operator()(const double &a, const double &b) const { return std::abs(a - b) < 0.0625; }
 };
 
+// a coarse tolerance: values that differ by less than 2 are "equal", so ++ / -- (a step of 1) produce an Eq-equal value
+struct CoarseEq {
+    bool operator()(const double &a, const double &b) const { return std::abs(a - b) < 2.0; }
+};
+
 struct IUni {
     virtual ~IUni() = default;
     virtual std::string run(const std::vector<std::string> &t) = 0;
@@ -174,6 +179,7 @@ int main() {
                 const std::string &k = t.at(1);
                 if (k == "long") uni = std::make_unique<Uni<long, void>>(parseV<long>(t.at(2)));
                 else if (k == "dy") uni = std::make_unique<Uni<double, NearEq>>(parseV<double>(t.at(2)));
+                else if (k == "dc") uni = std::make_unique<Uni<double, CoarseEq>>(parseV<double>(t.at(2)));
                 else if (k == "str") uni = std::make_unique<Uni<std::string, void>>(parseV<std::string>(t.at(2)));
                 out = uni ? "ok" : "bad-op";
             } else if (!uni) out = "!PRECOND";
